@@ -21,6 +21,7 @@ is rejected, is not decided (rule 8).
 """
 import io, os, math, contextlib
 from fractions import Fraction as Fr
+import json
 import numpy as np
 
 from mc import engine
@@ -435,6 +436,15 @@ def _do_integrate(c, P, V, res):
     p0, fs0, ts0 = np.array(P.data, copy=True), np.array(P.fs, copy=True), np.array(P.ts, copy=True)
     ref, aabs, L = R.integrate_ref(p0, ax, mode)
     res['n'] += 1
+    if form in ('as_frame', 'wrapper'):
+        # deterministic process history: a spectrum / time series of a frame with the same (fchans, df, fch1) and the OPPOSITE
+        # orientation has just been made (anything kept per band outside the objects is then the other orientation's)
+        try:
+            with contextlib.redirect_stdout(io.StringIO()):
+                dec = stg.Frame(shape=(m, n), df=P.df, dt=P.dt, fch1=P.fch1, ascending=not P.ascending, data=np.array(P.data, dtype=float))
+                stg.integrate(dec, axis=axis, mode=mode, normalize=False, as_frame=True)
+        except Exception:
+            pass
     try:
         with contextlib.redirect_stdout(io.StringIO()):
             if form == 'array':
@@ -479,6 +489,17 @@ def _do_integrate(c, P, V, res):
         _meta_checks(P, out, V, site, kind)
         _copy_checks(P, out, V, site, res)
         got = np.array(out.data, copy=True).reshape(-1)
+        # the object's own read-only helpers (array(), autocorr / acf of a time series) leave what it holds as it is
+        held = np.array(out.data, copy=True)
+        for hname in ('array', 'autocorr', 'acf'):
+            h = getattr(out, hname, None)
+            if callable(h):
+                try:
+                    h()
+                except Exception:
+                    pass
+        if out.data.shape != held.shape or not np.array_equal(out.data, held, equal_nan=True):
+            V(site, 'helper_modified_data', 'calling array()/autocorr()/acf() on the %s changed the integrated values it holds' % cls.__name__)
     else:
         if not isinstance(out, np.ndarray) or out.shape != (want_len,):
             V(site, 'shape', 'integrate returned %s %s, expected a (%d,) array'
@@ -514,6 +535,57 @@ def _do_integrate(c, P, V, res):
 
 
 # ----------------------------------------------------------------------------- case function
+
+def _do_normalize(c, P, V, res):
+    """sigma_clip_norm (the stand-alone form of the normalisation integrate() offers): the normalised frame is another derived
+    frame -- the parent (and a separate background frame) stay as they were, the result owns its data and keeps the parent's
+    registration; its values are (x - mean(clipped background)) / std(clipped background)."""
+    import setigen as stg
+    from astropy.stats import sigma_clip
+    site = 'sigma_clip_norm'
+    p0 = np.array(P.data, copy=True)
+    fs0 = np.array(P.fs, copy=True)
+    B = None
+    if c['bg']:
+        B = P.copy()
+        B.data = B.data * 0.5 + 3.0
+    b0 = None if B is None else np.array(B.data, copy=True)
+    try:
+        N = stg.sigma_clip_norm(P, axis=c['naxis'], background=B)
+    except Exception as e:
+        V(site, 'raised', '%s: %s' % (type(e).__name__, e))
+        return
+    res['n'] += 1
+    _parent_intact(P, p0, fs0, V, site)
+    if B is not None and not np.array_equal(B.data, b0):
+        V(site, 'background_modified', 'the background frame\'s data were changed')
+    if not isinstance(N, stg.Frame):
+        V(site, 'type', 'returned %s for a Frame' % type(N).__name__)
+        return
+    if N.data is P.data or np.shares_memory(N.data, P.data) or (B is not None and np.shares_memory(N.data, B.data)):
+        V(site, 'data_view', 'the normalised frame shares its data with the parent / the background')
+    ax = {None: None, 't': 0, 0: 0, 'f': 1, 1: 1}[c['naxis']]
+    bgd = p0 if b0 is None else b0
+    cl = sigma_clip(bgd.astype(float), axis=ax, masked=True)
+    if np.ma.count_masked(cl) == 0:
+        sd = np.std(bgd.astype(float), axis=ax, keepdims=True)
+        if np.all(sd > 0):
+            want = (p0.astype(float) - np.mean(bgd.astype(float), axis=ax, keepdims=True)) / sd
+            if N.data.shape != want.shape or not np.allclose(N.data, want, rtol=1e-6, atol=1e-6):
+                V(site, 'normalised_values', 'values are not (x - mean) / std of the background along axis %r' % (c['naxis'],))
+        else:
+            res['ambiguous'] += 1
+    else:
+        res['ambiguous'] += 1
+    if not np.array_equal(N.fs, fs0) or N.ascending != P.ascending or N.df != P.df or N.dt != P.dt:
+        V(site, 'registration', 'the normalised frame does not keep the parent\'s frequency axis / orientation / resolutions')
+    N.data[0, 0] += 1.0
+    if not np.array_equal(P.data, p0):
+        V(site, 'write_through_to_parent', 'writing into the normalised frame changed the parent')
+    res['outcomes'].append('norm/%s/%s' % (c['naxis'], c['bg']))
+    res['nontrivial'].append(engine.sha(c))
+
+
 def case_op(c):
     viol = []
 
@@ -540,6 +612,8 @@ def case_op(c):
             res['n'] += 1
         elif op == 'integrate':
             _do_integrate(c, P, V, res)
+        elif op == 'normalize':
+            _do_normalize(c, P, V, res)
         else:
             raise ValueError(op)
     return res
@@ -598,6 +672,9 @@ def run(ctx):
                 for norm in (False, True):
                     ig.append(dict(p, op='integrate', axis=ax, mode=mode, normalize=norm, form='wrapper'))
             ig.append(dict(p, op='integrate', axis=ax, mode='sum', normalize=False, form='array_positional'))
+    nm = [dict(pp, op='normalize', naxis=na, bg=bg) for pp in {json.dumps({k: v for k, v in d.items() if k not in ('op', 'l', 'r')}, sort_keys=True): {k: v for k, v in d.items() if k not in ('op', 'l', 'r')} for d in sl}.values()
+          for na in (None, 't', 'f', 0, 1) for bg in (False, True) if pp['m'] >= 2 and pp['n'] >= 2]
+    ctx.pmap(case_op, nm, label='normalize')
     ctx.pmap(case_op, sl, label='slice')
     ctx.pmap(case_op, dd, label='dedrift')
     ctx.pmap(case_op, ig, label='integrate')
